@@ -139,6 +139,7 @@ THEOREMS = [
     "OllamaVerif.Tie.C06.remove_table",
     "OllamaVerif.Tie.C06.copy_table",
     "OllamaVerif.Tie.C06.place_table",
+    "OllamaVerif.Tie.C06.resume_table",
     "OllamaVerif.C06.startForward_put_abs_perm",
     "OllamaVerif.C06.forward_abs_perm",
     "OllamaVerif.C06.slideSeq_abs",
@@ -185,12 +186,12 @@ BIT_NAMES = {1: "F14 (defrag coalescing)", 2: "F15b (CanResume coverage)", 4: "F
 def lean_tables(lines, variant):
     """tables.txt (written by TestVerifC06Tables: the real code executed over small finite domains) ->
     Generated/C06_Tables.lean"""
-    rows = {"mask": [], "evict": [], "remove": [], "copy": [], "place": []}
+    rows = {"mask": [], "evict": [], "remove": [], "copy": [], "place": [], "resume": []}
     for ln in lines:
         kind, _, rest = ln.strip().partition(" ")
         if kind not in rows:
             continue
-        if kind in ("copy", "place"):
+        if kind in ("copy", "place", "resume"):
             lst = rest[rest.index("["):rest.index("]") + 1]
             f = (rest[:rest.index("[")] + " @ " + rest[rest.index("]") + 1:]).split()
             f = [lst if x == "@" else x for x in f]
@@ -219,6 +220,8 @@ def lean_tables(lines, variant):
                   "CopyPrefix(0, 1, len) on one cell at the position owned by src / dst (neither: by sequence 2) ↦ owners afterwards")
             + lst("place", "List Bool × Nat × Nat",
                   "occupancy of 5 cells, batch size ↦ curLoc of the accepted batch, 100 = ErrKvCacheFull, 101 = panic")
+            + lst("resume", "Nat × List Bool × Int × Bool",
+                  "window, which of the positions 0..4 sequence 0 holds (cell i = position i), queried position ↦ CanResume")
             + "\nend OllamaVerif.Generated.C06\n")
 
 
